@@ -109,22 +109,34 @@ class LFRModel:
 
 
 def check_bounds(events, p, N, bounds, kw):
-    """recompute the four bounds from the logged Bernoulli draws; returns None or an error string"""
+    """recompute the four bounds from the logged Bernoulli draws; returns None, an error string, or a string starting with 'SCHEME'
+    when the replicates were drawn in a layout the parser does not know (inconclusive, not a violation)"""
     ev = [e for e in events if e[0] == "binomial"]
-    if len(ev) != kw["num_mc"]:
-        return "the RNG log shows %d binomial draws for one simulation, num_mc is %d" % (len(ev), kw["num_mc"])
-    eta = kw["time_decay_factor"]
-    w = np.array([eta ** (N - i) for i in range(1, N + 1)])
-    S, Srev = [], []
+    if not ev:
+        return "SCHEME: no numpy.random.binomial draw was logged for a simulation"
+    reps = []
     for (_, a, k, res) in ev:
         n_ = k.get("n", a[0] if a else None)
         p_ = k.get("p", a[1] if len(a) > 1 else None)
-        size = k.get("size", a[2] if len(a) > 2 else None)
-        if n_ != 1 or p_ != p or size != N:
-            return "a replicate was drawn as binomial(n=%r, p=%r, size=%r); expected Bernoulli(p=%r) x %d" % (n_, p_, size, p, N)
-        b = np.asarray(res)
-        S.append((1 - eta) * float(np.sum(w * b)))
-        Srev.append((1 - eta) * float(np.sum(w[::-1] * b)))
+        if n_ != 1 or p_ != p:
+            return "a replicate was drawn as binomial(n=%r, p=%r); expected Bernoulli(p=%r)" % (n_, p_, p)
+        reps.append(np.asarray(res))
+    total = sum(r.size for r in reps)
+    if total != kw["num_mc"] * N:
+        return "%d Bernoulli values were drawn in %d call(s) for one simulation; num_mc=%d replicates of %d trials need %d" % (
+            total, len(reps), kw["num_mc"], N, kw["num_mc"] * N)
+    if len(reps) == kw["num_mc"] and all(r.shape == (N,) for r in reps):
+        B = np.vstack(reps) if N else np.zeros((kw["num_mc"], 0))
+    elif len(reps) == 1 and reps[0].shape == (kw["num_mc"], N):
+        B = reps[0]
+    elif len(reps) == 1 and reps[0].shape == (N, kw["num_mc"]):
+        B = reps[0].T
+    else:
+        return "SCHEME: drawing scheme not understood (%d calls, shapes %r)" % (len(reps), [r.shape for r in reps][:3])
+    eta = kw["time_decay_factor"]
+    w = np.array([eta ** (N - i) for i in range(1, N + 1)])
+    S = [(1 - eta) * float(np.sum(w * b)) for b in B]
+    Srev = [(1 - eta) * float(np.sum(w[::-1] * b)) for b in B]
     wl, dl = kw["warning_level"], kw["detect_level"]
     for vals in (S, Srev):
         exp = {"lb_warn": np.percentile(vals, wl * 100), "ub_warn": np.percentile(vals, 100 - wl * 100),
@@ -210,6 +222,9 @@ def drive(det, model, pairs, kw, ctx, case, check_sims=True, label="seq"):
                 for (p, N, b, ev) in calls:
                     e2 = check_bounds(ev, p, N, b, kw)
                     ctx.count("bound_calls_checked")
+                    if e2 and e2.startswith("SCHEME"):
+                        ctx.mark_inconclusive(e2)
+                        return None
                     if e2:
                         ctx.violation("C06/sim_bounds", "sample %d: %s" % (i, e2), **base)
                         return None
